@@ -41,9 +41,11 @@ LEVEL_TEXT = ("Lean 4 theorems, all for every chunking (irregular, size-1, zero-
               "packGroups_flatten (extracted tolerance), shuffle_blocks_den, take_den (slicing.take's arange shortcut and "
               "indexer), totality for valid indexers. (3) one-axis plans: concat_den / concat_blocks, roll_den, repeat_den, "
               "pad_reuse_den (reflect / symmetric / wrap for every width), flip1d_den, tile_den, diff_den. (4) 2-d block plans: "
-              "transpose_den (also .T / swapaxes / moveaxis), flip_den, rot90_den (k = 1, 2, 3), tril_den, triu_den, stack_den, "
-              "broadcast_to_den. Validated against NumPy only (not proved): the n-d product structure of the 1-d / 2-d plans, "
-              "squeeze (integer indexing), block / n-d tile (nested concatenate), edge / constant / linear_ramp / statistics pads, "
+              "transpose_den (also .T / swapaxes / moveaxis; n-d with any permutation: transpose_nd_den), flip_den, rot90_den (k = 1, 2, 3), tril_den, triu_den, stack_den, "
+              "broadcast_to_den, squeeze_expand_den (+ expand_dims_plan: reshape_rechunk answers expand_dims without a rechunk), "
+              "concat2d_den, block_den ([[a, b], [c, d]]), tile2d_den, pad_const_den (pad chunks add up to the width). "
+              "Validated against NumPy only (not proved): the n-d product structure of the 1-d / 2-d plans (n-d flip / rot90 / "
+              "tril / stack / broadcast_to / concatenate, deeper block nestings), edge / linear_ramp / statistics pads, "
               "repeat's slab cutting, shuffle's _rechunk_other_dimensions, positivity of _smooth_chunks' output chunks (checked "
               "on every real output), x.rechunk(result_inchunks) itself (C23).")
 LEVEL_NOTE = ("Trusted: Lean kernel + standard axioms; the harness; NumPy kernels on one block; model = code is a checked tie "
@@ -546,6 +548,20 @@ def _classify_indexer(old, groups):
     return "same-lengths-other"
 
 
+def _refines(new, old):
+    """every old chunk is a run of consecutive new chunks (zero-length chunks aside)"""
+    new, old = [c for c in new if c], [c for c in old if c]
+    i = 0
+    for c in old:
+        acc = 0
+        while acc < c and i < len(new):
+            acc += new[i]
+            i += 1
+        if acc != c:
+            return False
+    return i == len(new)
+
+
 def _exc(f):
     try:
         return f(), None
@@ -606,6 +622,10 @@ def case_shuf(ctx, inp):
         r = d.shuffle([list(g) for g in groups], axis=ax) if inp.get("api", "method") == "method" else da.shuffle(d, [list(g) for g in groups], ax)
         if not _same(ctx, "shuffle (" + kind + ")", r, e):
             return
+        # _rechunk_other_dimensions: the other axes may only be split ("chunks are only split and not combined")
+        for a in range(x.ndim):
+            if a != ax and not _refines(r.chunks[a], d.chunks[a]):
+                ctx.fail("shuffle: the chunks of another axis are not a refinement of the input's chunks", observed=r.chunks, expected=d.chunks)
         if x.ndim == 1:
             blocks = [np.asarray(r.blocks[i].compute(scheduler="sync")).tolist() for i in range(len(r.chunks[0]))]
             ctx.eq("shuffle: computed blocks vs Lean shuffleBlocks", m[3], blocks)
@@ -793,6 +813,32 @@ def case_grid(ctx, inp):
         if len(r.chunks[0]) * len(r.chunks[1]) <= 48:
             _grid_eq(ctx, op, m, r)
         ctx.branch("grid:" + op)
+    elif op == "nd_transpose":
+        chunks, axes, api = inp["chunks"], inp["axes"], inp.get("api", "transpose")
+        x, d = _mk(chunks)
+        nd = x.ndim
+        if api == "swapaxes":
+            a1, a2 = inp["pair"]
+            r, e = da.swapaxes(d, a1, a2), np.swapaxes(x, a1, a2)
+            axes = list(range(nd))
+            axes[a1 % nd], axes[a2 % nd] = axes[a2 % nd], axes[a1 % nd]
+        elif api == "moveaxis":
+            a1, a2 = inp["pair"]
+            r, e = da.moveaxis(d, a1, a2), np.moveaxis(x, a1, a2)
+            axes = [k for k in range(nd) if k != a1 % nd]
+            axes.insert(a2 % nd, a1 % nd)
+        else:
+            r, e = da.transpose(d, axes), np.transpose(x, axes)
+        axes = [a % nd for a in axes]
+        m = ctx.lean(Sym("nd_transpose"), axes, [list(c) for c in chunks], [int(v) for v in x.ravel()])
+        if not _same(ctx, api, r, e, blocks=False):
+            return
+        ctx.eq(f"{api}: chunks of the result vs the Lean n-d plan (chunk tuples permuted)", m[0], [list(map(int, c)) for c in r.chunks])
+        if m[0] == [list(map(int, c)) for c in r.chunks] and math.prod(len(c) for c in r.chunks) <= 64:
+            real = [np.asarray(r.blocks[idx].compute(scheduler="sync")).ravel().tolist()
+                    for idx in itertools.product(*[range(len(c)) for c in r.chunks])]
+            ctx.eq(f"{api}: every block of the result vs the Lean n-d plan", m[1], real)
+        ctx.branch("grid:nd_transpose:%s:%dd" % (api, nd))
     elif op == "squeeze_row":
         cc = inp["cs"]
         x, d = _mk([[1], cc])
@@ -1120,7 +1166,7 @@ def _near_identity(rng, old, kind):
 def _gen_grid(rng):
     op = rng.choice(["transpose", "T", "swapaxes", "moveaxis", "flip0", "flip1", "rot90", "rot90", "tril", "tril", "triu", "triu",
                      "stack", "bcast_rows", "bcast_len1", "flip1d", "tile1d", "diff1d", "hcat", "vcat", "block2x2", "tile2d",
-                     "pad_const", "pad_const", "squeeze_row", "expand_row"])
+                     "pad_const", "pad_const", "squeeze_row", "expand_row", "nd_transpose", "nd_transpose", "nd_transpose"])
     z = rng.random() < 0.15
     comp = (lambda n: rand_comp_zeros(rng, n)) if z else (lambda n: rand_comp(rng, n))
     if op in ("stack",):
@@ -1137,6 +1183,14 @@ def _gen_grid(rng):
                 "r0": rng.randint(1, 3), "r1": rng.randint(1, 3)}
     if op in ("squeeze_row", "expand_row"):
         return {"op": op, "cs": rand_comp(rng, rng.randint(1, 8))}
+    if op == "nd_transpose":
+        nd = rng.randint(3, 4)
+        chunks = [comp(rng.randint(1, 4)) for _ in range(nd)]
+        api = rng.choice(["transpose", "transpose", "swapaxes", "moveaxis"])
+        axes = rng.sample(range(nd), nd)
+        if rng.random() < 0.3:
+            axes = [a - nd for a in axes]
+        return {"op": op, "chunks": chunks, "axes": axes, "api": api, "pair": [rng.randrange(-nd, nd), rng.randrange(-nd, nd)]}
     if op == "pad_const":
         return {"op": op, "cs": comp(rng.randint(1, 7)), "l": rng.randint(0, 9), "r": rng.randint(0, 9), "v": rng.randint(-3, 3)}
     inp = {"op": op, "rc": comp(rng.randint(1, 6)), "cc": comp(rng.randint(1, 6))}
@@ -1211,6 +1265,10 @@ def generate(ctx):
                 for op, k in [("transpose", 0), ("flip0", 0), ("flip1", 0), ("rot90", 1), ("rot90", 2), ("rot90", 3),
                               ("tril", 0), ("tril", -1), ("tril", 1), ("triu", 0), ("triu", 1), ("triu", -2)]:
                     yield "grid", {"op": op, "k": k, "rc": list(rc), "cc": list(cc)}
+    for shape in ([(2, 1, 2)] if not ctx.thorough() else [(2, 2, 3), (1, 2, 2), (2, 1, 2)]):
+        for chunks in itertools.product(*[comps(s0) for s0 in shape]):
+            for axes in itertools.permutations(range(3)):
+                yield "grid", {"op": "nd_transpose", "chunks": [list(c) for c in chunks], "axes": list(axes)}
     for _ in range(ctx.n(210, 3000)):
         yield "grid", _gen_grid(rng)
     # --- exhaustive small spaces: every chunking of n <= 4 (6 thorough), every pad width within the axis ---
